@@ -163,3 +163,46 @@ Proof.
   exact (py_trie_ensure_spec s (StoreFacts2.run_Inv18 d rs h Hh) x sub n sg Hsub Hn Hrep).
 Qed.
 Print Assumptions C19_source_sibling_insertion.
+
+(* ---- the whole insertion path, on the code translated from the source on every run (GenTrieW.v: LRUTrie.add_lru, add_page
+   with the walk history; GenTrie.v: __ensure_stem_from_siblings; GenNode.v: node write with tail blocks).  For EVERY
+   history, on any storage object holding the trie file of the state reached, adding any well-formed LRU with the translated
+   code never fails and leaves the storage holding exactly the trie file of the MODEL's next state (Tst.ins: one node per
+   missing stem, nblk blocks each; an LRU already present changes nothing but the flags the request asks for), returns the
+   node object of the LRU's node and the walk history of the model.  Size hypothesis: the file stays below 2^64 bytes. *)
+From Traph Require GenTrieW GenTrieWDefs GenTrieWAdd GenTrieWAll TraceDefs.
+Import GenTrieW GenTrieWDefs.
+Theorem C19_source_add_lru : forall d rs h, Forall wf_op h ->
+  let s := run d rs h in
+  forall sg lru flag, trep (TraceDefs.files_of s) sg -> wf_lru lru ->
+  let s' := fst (add_lru flag lru s) in
+  nb s' * 128 < 2 ^ 64 ->
+  exists sg' n ph, py_trie_add_lru sg lru flag = Some (sg', (n, ph)) /\
+    trep (TraceDefs.files_of s') sg' /\
+    hist_rep lru (snd (add_lru flag lru s)) false ph /\
+    exists t', find_sub (lru_iter lru) (tr s') = Some t' /\ node_at t' n.
+Proof.
+  intros d rs h Hh s sg lru flag Hrep Hwf s' Hsz.
+  pose proof (StoreFacts2.run_Inv18 d rs h Hh) as Hinv. fold s in Hinv.
+  pose proof (StoreFacts2.run_root_first d rs h) as Hroot. fold s in Hroot.
+  exact (GenTrieWAdd.py_trie_add_lru_spec s Hinv sg lru flag Hroot Hrep Hwf Hsz).
+Qed.
+Theorem C19_source_add_page : forall d rs h, Forall wf_op h ->
+  let s := run d rs h in
+  forall sg lru cr, trep (TraceDefs.files_of s) sg -> wf_lru lru ->
+  let r := trie_add_page lru cr s in
+  let s' := fst (fst r) in
+  nb s' * 128 < 2 ^ 64 ->
+  exists sg' n ph, py_trie_add_page sg lru cr = Some (sg', (n, ph)) /\
+    trep (TraceDefs.files_of s') sg' /\
+    hist_rep lru (snd (fst r)) (snd r) ph /\
+    exists t', find_sub (lru_iter lru) (tr s') = Some t' /\ node_at t' n.
+Proof.
+  intros d rs h Hh s sg lru cr Hrep Hwf r s' Hsz.
+  pose proof (StoreFacts2.run_Inv18 d rs h Hh) as Hinv. fold s in Hinv.
+  pose proof (StoreFacts2.run_root_first d rs h) as Hroot. fold s in Hroot.
+  exact (GenTrieWAll.py_trie_add_page_full s Hinv sg lru cr Hroot Hrep Hwf Hsz).
+Qed.
+(* an LRU already in the trie: not one block is added (with C19_readd_no_growth on the model) *)
+Print Assumptions C19_source_add_lru.
+Print Assumptions C19_source_add_page.
